@@ -1,5 +1,5 @@
 """C14: AVX512 dot / sparse / dense matrix kernels equal the product mod p for both interleaved states."""
-from .. import matcheck
+from .. import matcheck, kcheck
 
 LEVEL = 'proof'
 PAT = r'^Goldilocks::(spmv_avx512_4x12|mmult_avx512|dot_avx512)(_4x12)?(_a|_8)?\('
@@ -11,4 +11,6 @@ def run(rep, tier, seed):
                      'lane-kernel call site must present operands whose representation typestate satisfies the callee contract '
                      '(canonical-operand adders may not receive products or sums, which are arbitrary 64-bit representations)')
     matcheck.run_family(rep, 'avx512', PAT, 7, 'C14')
-    rep.trusted = ['clang 14 lowering', 'glv abstract interpreter', 'lane-kernel contracts incl. spmv_avx512_4x12_8 (proved by C11 kernel mode)']
+    n = kcheck.prove_dot8(rep, 'avx512', 8, seed=seed)
+    rep.floor('8-bit sparse kernel (kernel mode)', n, 1)
+    rep.trusted = ['clang 14 lowering', 'glv abstract interpreter', 'lane-kernel contracts (proved by C11 kernel mode)']
